@@ -28,7 +28,8 @@ NUMS = ['0', '1', '-1', '2', '42', '-0', '00', '007', '0x0', '0xFF', '0xff', '0X
         '18446744073709551615', '18446744073709551616', '-9223372036854775809', '99999999999999999999',
         '340282366920938463463374607431768211456', '0x7FC00000', '0xFFFFFFFFFFFFFFFF', '0x1FFFFFFFFFFFFFFFF', '0x7F800000',
         '0xFFF0000000000001', '9' * 40, '9' * 4400, '0x' + 'F' * 5000, '1' + '0' * 400 + '.0', '0.' + '0' * 400 + '1',
-        '1e' + '9' * 30, 'inf', 'nan', '-inf', 'true', 'false', '2147483648', '-2147483649', '255', '256', '-129']
+        '1e' + '9' * 30, 'inf', 'nan', '-inf', 'true', 'false', '2147483648', '-2147483649', '255', '256', '-129', '-', '- 1', '-x',
+        '--1', '-true', '-0x', '-.5', '- -1', '-?', '-[', '1.5.3', '1..2', '1.e', '0x1p3', '1_000', '1.0f', '0b1', '0o7', '1e5e5']
 KEYWORDS = ['dense', 'dense<', 'dense<>', 'dense<[]>', 'dense_resource', 'dense_resource<', 'array', 'array<', 'array<i32>',
             'array<i32:', 'affine_map', 'affine_map<', 'affine_set', 'affine_set<', 'loc', 'loc(', 'loc(unknown)',
             'loc("f":1:2)', 'loc(fused[', 'loc(callsite(', 'opaque', 'opaque<', 'strided', 'strided<', 'strided<[',
@@ -496,8 +497,8 @@ class Soup:
             if m < 0.8:
                 return self.strided()
             if m < 0.84:
-                return self._c('opaque') + self._c('<') + self.string_lit() + self._c(',') + ' ' + self.string_lit() + self._c('>') + \
-                    r.choice(['', ' : ' + self.type()])
+                strs = (self._c(',') + ' ').join(self.string_lit() for _ in range(r.choice([1, 2, 2, 2, 2, 3, 0])))
+                return self._c('opaque') + self._c('<') + strs + self._c('>') + r.choice(['', ' : ' + self.type()])
             if m < 0.88:
                 return self._c('dense_resource') + self._c('<') + self._c(r.choice(['r', 'blob1', '"r"', '1', 'r_1'])) + self._c('>') + \
                     ' : ' + self.type()
@@ -801,3 +802,55 @@ def random_pump(rng, pool):
     if len(unit) > 4000:
         unit = unit[:4000]
     return ('rnd', prefix, unit, suffix, max(4, min(1 << 13, (1 << 16) // max(1, len(unit)))))
+
+
+# ------------------------------------------------------------------ lexer pump matrix (token regexes: prefix, pumped unit, stopper)
+LEX_PREFIX = ['', '"', '@"', '@', '%', '^', '#', '!', '1.', '0x', '1', '1e', '1.0e', '1.0e+', '//', 'a', 'a.', '-', '"\\', '"\\0',
+              '{-#', '.', '..', '#-', '%a', '^1', '!a.', '0', '0.']
+LEX_UNIT = ['a', '9', '0', '.', '-', ' ', '\\', '\\\\', '"', 'a.', '9.', 'e', 'x', '$', '_', 'é', '\n', '/', '#', '%', '\t', 'F',
+            '\\n', '\\00', 'a\\', '٣', '\r', '\x0b', '+', 'e+', '9e', '._', '-$']
+LEX_STOP = ['', '.', '"', '\n', '\\', '!', 'é', '\x00', ' ', 'e', 'x', '\\q', '-', '$', '9', 'a']
+
+
+def lex_matrix_size():
+    return len(LEX_PREFIX) * len(LEX_UNIT) * len(LEX_STOP)
+
+
+def lex_matrix_family(i: int, big: bool):
+    """i-th (prefix, unit, stopper) combination as a pump family with an explicit k list: small ks expose exponential
+    blow-up of a token regex (2^k), the doubling big ks a polynomial one."""
+    p = LEX_PREFIX[i % len(LEX_PREFIX)]
+    i //= len(LEX_PREFIX)
+    u = LEX_UNIT[i % len(LEX_UNIT)]
+    i //= len(LEX_UNIT)
+    st = LEX_STOP[i % len(LEX_STOP)]
+    ks = [4096, 8192, 16384] if big else [20, 24, 28]
+    return ('lex:' + repr(p) + '+' + repr(u) + '*k+' + repr(st), p, u, st, ks)
+
+
+# ------------------------------------------------------------------ literal x type matrix (builtin value construction, tier A)
+LIT_TYPES = ['i1', 'i8', 'i16', 'i32', 'i64', 'si8', 'ui8', 'si64', 'ui64', 'i128', 'ui65', 'i0', 'i7', 'index', 'i1000', 'si4096',
+             'f16', 'bf16', 'f32', 'f64', 'f80', 'f128', 'tf32', 'f8E4M3FN', 'f8E5M2', 'f8E4M3', 'f8E5M2FNUZ', 'f8E4M3FNUZ',
+             'f8E4M3B11FNUZ', 'f8E3M4', 'f8E8M0FNU', 'f6E2M3FN', 'f6E3M2FN', 'f4E2M1FN', 'complex<f32>', 'complex<i32>', 'complex<f16>',
+             'complex<i128>', 'none', 'tensor<1xi8>', '!test.type<"x">']
+LIT_VALUES = ['0', '1', '-1', '2', '255', '256', '-129', '2147483648', '18446744073709551616', '-9223372036854775809',
+              '9' * 40, '9' * 320, 'true', 'false', '0.0', '-0.0', '1.5', '65504.0', '65536.0', '3.4028235e38', '3.5e38', '1e39',
+              '1.7976931348623157e308', '1e999', '-1e999', '5e-324', '0x0', '0x7C00', '0xFFFF', '0x7FC00000', '0xFFFFFFFF',
+              '0x7FF8000000000000', '0xFFFFFFFFFFFFFFFF', '0x1FFFFFFFFFFFFFFFF', '0x' + 'F' * 40, '(1,2)', '(1.0,2.0)', '(1,2.0)', '(true,false)',
+              '(99999999999,1)', '(1e39,0.0)', '"0x00"', '"0x0000000000000000"', '"0xZZ"', '""']
+LIT_CONTEXTS = ['"test.op"() {{a = {v} : {t}}} : () -> ()', '"test.op"() {{a = array<{t}: {v}>}} : () -> ()',
+                '"test.op"() {{a = array<{t}: {v}, {v}>}} : () -> ()', '"test.op"() {{a = dense<{v}> : tensor<2x{t}>}} : () -> ()',
+                '"test.op"() {{a = dense<[{v}, {v}]> : tensor<2x{t}>}} : () -> ()', '"test.op"() {{a = dense<{v}> : vector<{t}>}} : () -> ()',
+                '"test.op"() {{a = dense<[[{v}], [{v}]]> : memref<2x1x{t}>}} : () -> ()', '%0 = "test.op"() : () -> tensor<{v}x{t}>']
+
+
+def lit_matrix_size():
+    return len(LIT_TYPES) * len(LIT_VALUES) * len(LIT_CONTEXTS)
+
+
+def lit_matrix_text(i: int) -> str:
+    t = LIT_TYPES[i % len(LIT_TYPES)]
+    i //= len(LIT_TYPES)
+    v = LIT_VALUES[i % len(LIT_VALUES)]
+    i //= len(LIT_VALUES)
+    return LIT_CONTEXTS[i % len(LIT_CONTEXTS)].format(v=v, t=t)
